@@ -542,10 +542,13 @@ class Interp:
             for nme in unmanaged:
                 fr.vars[nme] = Opaque(f"loop-local {nme}")
         where0 = c.where
+        desc = False
         if rng is not None:
             start, stop = rng.start, rng.stop
-            if rng.step != 1:
-                raise OutOfReach("symbolic range with step != 1")
+            if isinstance(rng.step, int) and rng.step == -1:
+                desc = True            # range(start, stop, -1): k = start, start-1, ..., stop+1
+            elif rng.step != 1:
+                raise OutOfReach("symbolic range with step other than 1 or -1")
         else:
             start, stop = 0, None
         c.where = f"{qual}#loop{ordinal}.establish"
@@ -554,7 +557,7 @@ class Interp:
         if self.truth(exhausted):
             # state after the loop ran to completion: invariant at k = stop (or start if empty)
             if rng is not None:
-                kx = sym.smax(start, stop)
+                kx = sym.smin(start, stop) if desc else sym.smax(start, stop)
                 scrub()
                 rule.havoc(self, fr, kx)
                 c.ghost["phase"] = "exhausted"
@@ -576,9 +579,13 @@ class Interp:
             raise PathAbort("loop body not executed (havoc-all rule)")
         # generic iteration
         k = SInt.var(c.fresh_name(f"k{ordinal}"))
-        c.assume(k >= start)
-        if rng is not None:
-            c.assume(k < stop)
+        if desc:
+            c.assume(k <= start)
+            c.assume(k > stop)
+        else:
+            c.assume(k >= start)
+            if rng is not None:
+                c.assume(k < stop)
         scrub()
         rule.havoc(self, fr, k)
         c.ghost["phase"] = "generic"
